@@ -42,8 +42,10 @@ static constexpr FLU vf_flu;
 // ---- message table (sorted by strcmp): GeneratedTable<const char*, BaseMsgEntry> pairs {key, {Minst{std::function}, name, comment}}
 struct MP { const char *key; char fn[sizeof(Minst)]; const char *name, *comment; };
 static_assert(sizeof(MP) == sizeof(MsgTable::Pair), "MsgTable::Pair layout");
-static const MP vf_msgs[] = { { "A", {}, "Logon", nullptr }, { "header", {}, "header", nullptr }, { "trailer", {}, "trailer", nullptr } };
-static const MsgTable vf_msgtable(reinterpret_cast<const MsgTable::Pair *>(vf_msgs), VF_NMSGS);
+static constexpr MP vf_msgs[] = { { "A", {}, "Logon", nullptr }, { "header", {}, "header", nullptr }, { "trailer", {}, "trailer", nullptr } };
+struct GT { const MP *pairs; size_t n; };     // GeneratedTable layout {_pairs, _pairsz}
+static_assert(sizeof(GT) == sizeof(MsgTable), "GeneratedTable layout");
+static constexpr GT vf_msgtable = { vf_msgs, VF_NMSGS };
 
 // ---- F8MetaCntx without its constructor (it builds reverse-lookup maps that the codec never reads)
 struct CTX { unsigned version; const MsgTable *bme; const FieldTable *be; const char **cn; unsigned flu_sz; const BaseEntry **flu;
@@ -94,7 +96,7 @@ const unsigned vf_n_hdr = VF_N_HDR, vf_n_body = VF_N_BODY, vf_n_grp = VF_N_GRP, 
 void vf_ctx_setup(F8MetaCntx *c, f8String *mt4)
 {
    CTX *k = reinterpret_cast<CTX *>(c);
-   k->version = 4200; k->bme = &vf_msgtable; k->be = nullptr; k->cn = nullptr; k->flu_sz = VF_FLU_SZ;
+   k->version = 4200; k->bme = reinterpret_cast<const MsgTable *>(&vf_msgtable); k->be = nullptr; k->cn = nullptr; k->flu_sz = VF_FLU_SZ;
    k->flu = reinterpret_cast<const BaseEntry **>(const_cast<const BE **>(vf_flu.p));
    new (&k->beginStr) f8String("FIX.4.2"); k->preamble_sz = 2 + 7 + 1 + 3;
    vf_mt_hdr = new (mt4) f8String("header"); vf_mt_trl = new (mt4 + 1) f8String("trailer"); vf_mt_body = new (mt4 + 2) f8String("A"); vf_mt_grp = new (mt4 + 3) f8String("NoMsgTypes");
